@@ -208,6 +208,9 @@ func Orchestrate(cfg OrchConfig) int {
 	if p.Flavours != nil {
 		flavours = p.Flavours(cfg.Tier)
 	}
+	if only := os.Getenv("VERIF_ONLY_FLAVOUR"); only != "" {
+		flavours = []string{only} // debugging aid; evidence then lists only this flavour
+	}
 	logDir := filepath.Join(cfg.VerifDir, ".build", "logs", p.ID)
 	os.RemoveAll(logDir)
 	os.MkdirAll(logDir, 0o755)
